@@ -1,5 +1,5 @@
 (* C07 - PAM protection edits are applied and annotated exactly as requested. *)
-From VV Require Import Model.Base Model.Pattern Model.Gpo Model.Views Spec.LiftSpec Proofs.ViewsProofs Proofs.PamSeqProofs.
+From VV Require Import Model.Base Model.Pattern Model.Gpo Model.Views Spec.LiftSpec Proofs.ViewsProofs Proofs.PamSeqProofs Proofs.ViewsSgrnaProofs.
 
 (* pam_seq carries the ALT base at the positions of the applied edits (those that get_ppe_seq hands to apply_variants:
    listed sgRNA, inside the targeton, sorted by position) and the background base everywhere else *)
@@ -29,7 +29,40 @@ Theorem C07_slots_contiguous : forall exons, exons_wf exons ->
   forall p q r, p <= q <= r -> slot_of exons p = slot_of exons r -> slot_of exons p <> None -> slot_of exons q = slot_of exons p.
 Proof. exact slots_contiguous. Qed.
 
+(* composed on the model of the tables and of v_meta: whenever sql_insert_exon_codon_ppes succeeds on the edits applied to the targeton
+   (well-formed exon table; exons.id and the edit id are primary keys), pam_mut_sgrna_id of a mutation at [start, start+len-1] lists
+   exactly the distinct sgRNA ids of the applied edits spanned by the mutation or sharing a codon slot with its first or last base *)
+Theorem C07_sgrna_ids_exact : forall exons ts ecps,
+  exons_wf exons ->
+  (forall e1 e2, In e1 exons -> In e2 exons -> e_id e1 = e_id e2 -> e1 = e2) ->
+  (forall t1 t2, In t1 ts -> In t2 ts -> tp_id t1 = tp_id t2 -> t1 = t2) ->
+  insert_ecps exons ts [] = Ok ecps ->
+  forall start len id,
+    let j := v_meta_join exons ts ecps start len in
+    In id (j_sgrna_ids j) <->
+    exists t, In t ts /\ tp_sgrna t = id /\ selected _ (slot_of exons) start (j_ref_end j) (tp_start t).
+Proof. exact v_meta_sgrna_ids_spec. Qed.
+
+(* the primary key of targeton_exon_codon_ppes: a successful insert means no two applied edits share a codon slot *)
+Theorem C07_one_edit_per_codon_slot : forall exons ts ecps,
+  exons_wf exons -> insert_ecps exons ts [] = Ok ecps ->
+  forall x y, In x (map tp_start ts) -> In y (map tp_start ts) -> slot_of exons x = slot_of exons y -> slot_of exons x <> None -> x = y.
+Proof. exact pk_positions. Qed.
+
+Example C07_sgrna_ids_example :
+  let exons := [mkExon 1 10 18 0 10; mkExon 2 30 38 1 30] in
+  let ts := [mkTppe 1 12 12 "sgA"; mkTppe 2 17 17 "sgA"; mkTppe 3 31 31 "sgB"] in
+  match insert_ecps exons ts [] with
+  | Ok ecps => j_sgrna_ids (v_meta_join exons ts ecps 10 1) = ["sgA"]%string /\
+               j_sgrna_ids (v_meta_join exons ts ecps 13 1) = [] /\
+               j_sgrna_ids (v_meta_join exons ts ecps 14 20) = ["sgA"; "sgB"]%string
+  | Err _ => False
+  end.
+Proof. exact sgrna_ids_example. Qed.
+
 Print Assumptions C07_pam_seq_exact.
 Print Assumptions C07_ppe_seq_is_splice.
 Print Assumptions C07_sql_range_filter_is_spec.
 Print Assumptions C07_slots_contiguous.
+Print Assumptions C07_sgrna_ids_exact.
+Print Assumptions C07_one_edit_per_codon_slot.
